@@ -3,10 +3,11 @@
   naturals.  Each property contributes `Handlers/H<id>.lean` exporting a list; append it here.
 -/
 import Handlers.Basic
+import Handlers.HC14
 
 namespace Handlers
 
 def all : List (String × (List Nat → Option String)) :=
-  []
+  [] ++ hC14
 
 end Handlers
